@@ -283,6 +283,7 @@ class Interp:
         self.loop_handlers = {}      # (qualname, ordinal) -> handler(interp, frame, node) or None
         self.write_log = None        # list collecting (kind, target) writes when enabled
         self.trace_calls = None      # optional list of qualnames called
+        self.used_contracts = None   # set of contract qualnames applied modularly (when enabled)
         self.default_loop_bound = 12
         extern.install(self)
         self.object_cls = self.builtins['object']
@@ -1802,6 +1803,8 @@ class Interp:
             self.trace_calls.append(f.qualname)
         c = self.contracts.get(f.qualname)
         if c is not None and f.qualname != self.under_verification:
+            if self.used_contracts is not None:
+                self.used_contracts.add(f.qualname)
             return c.apply(self, f, args, kwargs)
         loc = self.bind_args(f, args, kwargs)
         frame = Frame(loc, f.module, closure=f.closure, func=f)
